@@ -83,6 +83,15 @@ pub fn catalogue() -> Vec<Edge> {
     e("group g2={b,c}".into(), Box::new(|c| { group(c, "g2", &["b", "c"]); }));
     e("group g2={b,c} multiple".into(), Box::new(|c| { group(c, "g2", &["b", "c"]).multiple = true; }));
     e("group g1={a,o}".into(), Box::new(|c| { group(c, "g1", &["a", "o"]); }));
+    // `b` is listed by g1 and names g1 itself as well, then names a second group
+    // (a group of its own, g3, so that the edge does not meet the relations declared between g1 and g2)
+    e("b.group(g1 again, then g3={c})".into(), Box::new(|c| {
+        group(c, "g1", &["a", "b"]);
+        group(c, "g3", &["c"]);
+        let b = c.arg_mut("b").unwrap();
+        b.groups.push("g1".into());
+        b.groups.push("g3".into());
+    }));
     e("g1.required".into(), Box::new(|c| { group(c, "g1", &["a", "b"]).required = true; }));
     e("g2.required".into(), Box::new(|c| { group(c, "g2", &["c", "d"]).required = true; }));
     e("g1.requires(c)".into(), Box::new(|c| { group(c, "g1", &["a", "b"]).requires.push("c".into()); }));
